@@ -2,7 +2,7 @@ SPECIFICATION Spec
 CONSTANTS
   MaxBlocks = 3
   MaxReqs = 2
-  Templates = {"o23", "o123", "ret", "jmp", "d3"}
+  Templates = {"o23", "ret", "d3"}
   PatchKinds = {"plain2", "cfi", "cfistate", "loop"}
   FnLayouts = {"none", "one"}
   EndSyms = {FALSE}
